@@ -113,11 +113,14 @@ def check_shared_list(ctx, svs, grid):
 
 
 def check_rejected(ctx, svs, cc, what):
-    try:
-        got = svs.get_cmc(cc)
-    except Exception:
-        return
-    ctx.fail("%s accepted: coords %s -> id %d" % (what, list(cc), int(got)))
+    # asked twice (a caller that retries): rejected both times
+    for attempt in ("", " (second request in a row)"):
+        try:
+            got = svs.get_cmc(cc)
+        except Exception:
+            continue
+        ctx.fail("%s accepted%s: coords %s -> id %d" % (what, attempt,
+                                                        list(cc), int(got)))
 
 
 def nontrivial_grid(grid):
